@@ -44,6 +44,7 @@ type FPAQEncoder struct {
 	index     int
 	probs     [4][]int // probability of bit=1
 	ctxIdx    byte     // previous bits
+	hasData   bool     // true once at least one byte has been encoded
 }
 
 // NewFPAQEncoder creates an instance of FPAQEncoder providing a
@@ -130,6 +131,10 @@ func (this *FPAQEncoder) Write(block []byte) (int, error) {
 	startChunk := 0
 	end := count
 
+	if count > 0 {
+		this.hasData = true
+	}
+
 	// Split block into chunks, read bit array from bitstream and decode chunk
 	for startChunk < end {
 		chunkSize := _FPAQ_DEFAULT_CHUNK_SIZE
@@ -192,6 +197,12 @@ func (this *FPAQEncoder) Dispose() {
 	}
 
 	this.disposed = true
+
+	// Nothing was encoded: the decoder will not read anything either
+	if this.hasData == false {
+		return
+	}
+
 	this.bitstream.WriteBits(this.low|_FPAQ_MASK_0_24, 56)
 }
 
